@@ -93,6 +93,27 @@ Proof.
 Qed.
 Print Assumptions C13_window_correct.
 
+(* The public array-level function extract_wfs_array (arr with ns columns, NaN row at index nc,
+   channel table of the geometry): for spikes whose window [sample - to, sample - to + L) lies in
+   the array (the last one strictly, as the source asserts) it does not raise and waveform w is the
+   window of spike w; with window_cell: cell (w, j, t) = arr[nbr(peak_w)[j]][sample_w - to + t],
+   NaN where the neighbour is the NaN-row index. *)
+Theorem C13_extract_array_window : forall V (src : Z -> Z -> V) P ns rows,
+  rows <> [] -> 0 <= c_to P <= c_L P ->
+  (forall r, In r rows -> c_to P <= r_sample r /\ r_sample r + (c_L P - c_to P) <= ns /\
+                          0 <= r_chan r < zlen (c_geom P)) ->
+  r_sample (last rows drow) + (c_L P - c_to P) < ns ->
+  extract_array V src P (cidx P) ns rows = Some (map (fun r => window V src P (r_sample r) (r_chan r)) rows) /\
+  forall r j t, In r rows -> (j < length (znth [] (cidx P) (r_chan r)))%nat -> 0 <= t < c_L P ->
+    nth (Z.to_nat t) (nth j (window V src P (r_sample r) (r_chan r)) []) None =
+    let ch := nth j (znth [] (cidx P) (r_chan r)) 0 in
+    if ch =? c_nc P then None else Some (src ch (r_sample r - c_to P + t)).
+Proof.
+  intros V src P ns rows H1 H2 H3 H4. split; [now apply extract_array_window|].
+  intros r j t _ Hj Ht. now apply window_cell.
+Qed.
+Print Assumptions C13_extract_array_window.
+
 (* The final file is the same for every order / interleaving of the individual
    row writes of all chunk jobs (hence for every n_jobs). *)
 Theorem C13_writes_commute : forall V (src : Z -> Z -> V) choose P, guards P -> choose_ok choose ->
